@@ -2,6 +2,13 @@
 import Relic.Driver.C12
 import Relic.Driver.PE
 import Relic.Driver.C20
+import Relic.Driver.C15
+import Relic.Driver.C06
+import Relic.Driver.C07
+import Relic.Driver.C04
+import Relic.Driver.C09
+import Relic.Driver.C18
+import Relic.Driver.C16
 open Relic
 
 def dispatch (line : String) : String :=
@@ -9,6 +16,13 @@ def dispatch (line : String) : String :=
   | "C12" :: rest => Relic.Driver.C12.handle rest
   | "PE" :: rest => Relic.Driver.PE.handle rest
   | "C20" :: rest => Relic.Driver.C20.handle rest
+  | "C15" :: rest => Relic.Driver.C15.handle rest
+  | "C06" :: rest => Relic.Driver.C06.handle rest
+  | "C07" :: rest => Relic.Driver.C07.handle rest
+  | "C04" :: rest => Relic.Driver.C04.handle rest
+  | "C09" :: rest => Relic.Driver.C09.handle rest
+  | "C18" :: rest => Relic.Driver.C18.handle rest
+  | "C16" :: rest => Relic.Driver.C16.handle rest
   | _ => "bad-op"
 
 partial def loop (h : IO.FS.Stream) (out : IO.FS.Stream) : IO Unit := do
